@@ -307,7 +307,7 @@ pub fn run(_tier: Tier, shard: Shard, rep: &mut Report) {
         advancing on a found entry; missing roots stay missing. Non-trivial = a read-only level holds a copy / a degenerate root \
         or unusual name is involved. The lookup/touch cells are repeated with every planted copy stamped one day ahead of the local \
         clock (entries written by a host whose clock runs ahead), and with the probes (open/stat) of each read-only copy answered \
-        ESTALE, EIO, EACCES or ENOENT; and with every periodic trigger scripted to fire during the operation while two-hour-old debris \
+        ESTALE, EIO, EACCES or ENOENT; with planted values of 96 KiB (promotion of large hits); and with every periodic trigger scripted to fire during the operation while two-hour-old debris \
         lies in each level's .kismet_temp."
         .into();
     rep.assumptions = vec![
@@ -344,6 +344,24 @@ pub fn run(_tier: Tier, shard: Shard, rep: &mut Report) {
             }
         }
         rep.count("future_dated_cells", 1);
+    }
+    // promotions of values past any "large value" threshold (96 KiB): however the copy is made, the read-only
+    // entry keeps its inode to itself (timestamps, mode, link count)
+    for cell in all.iter().filter(|c| matches!(c.op, MOp::Ensure | MOp::Gou(crate::ops::Act::Promote) | MOp::Gou(crate::ops::Act::Accept) | MOp::Get) && c.has_writer() && c.checker == 0 && c.readers.len() <= 2 && c.pop == 0) {
+        no += 1;
+        if !shard.mine(no) {
+            continue;
+        }
+        PLANTED_SIZE.with(|s| s.set(crate::world::Size::Large));
+        let before = rep.violations.len();
+        record(cell, rep);
+        PLANTED_SIZE.with(|s| s.set(crate::world::Size::Five));
+        for v in rep.violations.iter_mut().skip(before) {
+            if let Some(o) = v.case.as_object_mut() {
+                o.insert("planted_large".into(), json!(true));
+            }
+        }
+        rep.count("large_value_cells", 1);
     }
     // the same lookups with every periodic trigger about to fire and stale debris lying in each level's
     // .kismet_temp: whatever housekeeping a lookup may set off, it never reaches a read-only root
@@ -394,6 +412,9 @@ pub fn replay(case: &Value, rep: &mut Report) {
         record_with_faults(&Cell::from_json(case), rep);
     } else {
         let future = case.get("future_dated").and_then(|v| v.as_bool()).unwrap_or(false);
+        if case.get("planted_large").and_then(|v| v.as_bool()).unwrap_or(false) {
+            PLANTED_SIZE.with(|s| s.set(crate::world::Size::Large));
+        }
         let firing = case.get("trigger_fires_with_debris").and_then(|v| v.as_bool()).unwrap_or(false);
         FUTURE_DATED.with(|f| f.set(future));
         FORCE_MAINTENANCE.with(|f| f.set(firing));
@@ -402,5 +423,6 @@ pub fn replay(case: &Value, rep: &mut Report) {
         FUTURE_DATED.with(|f| f.set(false));
         FORCE_MAINTENANCE.with(|f| f.set(false));
         STALE_DEBRIS.with(|f| f.set(false));
+        PLANTED_SIZE.with(|s| s.set(crate::world::Size::Five));
     }
 }
